@@ -32,6 +32,9 @@ structure Block where
   root : Nat
   /-- state update OldRoot -/
   oldRoot : Nat
+  /-- the root the state really has once the block's diff is applied (`st.Update` recomputes the
+  commitment and refuses the block when it differs from `root`) -/
+  applied : Nat
   /-- set bit indices of the header's EventsBloom -/
   bits : List Nat
   /-- transaction hashes -/
@@ -353,6 +356,9 @@ def storePlan (W : Nat) (n : Node) (b : Block) : Plan :=
   if en ≠ b.num then ⟨n.disk, [], n.mem, .err .succession⟩
   else if ep ≠ b.parent then ⟨n.disk, [], n.mem, .err .parent⟩
   else if stateRoot n.disk ≠ b.oldRoot then ⟨n.disk, [], n.mem, .err .state⟩
+  -- `st.Update`: the diff is applied to the batch, the new commitment must be the header's root;
+  -- a late refusal with a full batch, before the block records and the filter are touched
+  else if b.applied ≠ b.root then ⟨n.disk, [], n.mem, .err .state⟩
   else
     let n1 := ensureInit W n
     match n1.mem with
